@@ -404,6 +404,13 @@ func (w *World) Vote(a *Actor, id uint64, choice disputetypes.VoteEnum) PhaseRes
 		args["isteam"] = true
 	}
 	if d, err := w.App.DisputeKeeper.Disputes.Get(w.Ctx, id); err == nil {
+		// "as of the dispute's block": the block at which the FIRST round of this dispute was opened (read from that
+		// round's own record, not from the round being voted on)
+		if len(d.PrevDisputeIds) > 0 {
+			if first, err := w.App.DisputeKeeper.Disputes.Get(w.Ctx, d.PrevDisputeIds[0]); err == nil {
+				d.BlockNumber = first.BlockNumber
+			}
+		}
 		if t, err := w.App.OracleKeeper.GetTipsAtBlockForTipper(w.Ctx, d.BlockNumber, a.Addr); err == nil {
 			args["usertips"] = NumInt(t)
 		}
